@@ -244,7 +244,7 @@ class Harness:
         self.fault = sc.get("fault")
         self.cur: Rec | None = None
         self.use_abort = bool(sc.get("poll")) or any(
-            c.get("abort_at") is not None for c in sc["calls"]
+            c.get("abort_at") is not None or c.get("abort_after_op") is not None for c in sc["calls"]
         )
         self.n = {}
         self.budget = None
@@ -395,6 +395,10 @@ class Harness:
             elif name == "nested_open":
                 x = CircuitOpenError("open")
                 x.rv_klass = o[2] if len(o) > 2 and o[2] else "UNKNOWN"
+            elif name == "timeout":
+                # an ordinary failure whose type is TimeoutError (what asyncio.wait_for / socket timeouts raise)
+                x = asyncio.TimeoutError("scripted timeout")
+                x.rv_klass = o[2] if len(o) > 2 and o[2] else "TRANSIENT"
             else:
                 x = make_exc(name)
             try:
@@ -420,6 +424,9 @@ class Harness:
         i = self.count("poll")
         at = rec.env.get("abort_at")
         ans = at is not None and i >= at
+        aop = rec.env.get("abort_after_op")
+        if aop is not None and self.n.get("op", 0) >= aop:
+            ans = True  # sticky flag raised while attempt #aop was in flight
         rec.trace.append(("poll", i, ans, self.now()))
         self.cb_fault("abort_if")
         return ans
@@ -434,6 +441,9 @@ class Harness:
             d = ds[i % len(ds)]
             rec.trace.append(("handler", place, ctx.attempt, s, d))
             h.cb_fault("handler")
+            hd = rec.env.get("handler_dur")
+            if hd:
+                h.world.t += hd[i % len(hd)]  # a slow handler: time passes before the sleep starts
             if d == "bogus":
                 return "sleep-ish"
             return SleepDecision(d)
@@ -442,29 +452,49 @@ class Harness:
 
     def mk_before_sleep(self, place):
         h = self
-        if self.is_async and self.sc.get("bs_kind") == "async":
+        def slow():
+            bd = h.cur.env.get("bs_dur")
+            if bd:
+                h.world.t += bd[h.n.get("hook:before_sleep", 0) % len(bd)]
+
+        if self.is_async and self.sc.get("bs_kind") in ("async", "lambda"):
 
             async def abs_(ctx, s):
                 h.cur.trace.append(("before_sleep", place, ctx.attempt, s))
                 await h.susp("before_sleep")
+                slow()
                 h.hook_fault("before_sleep")
 
+            if self.sc.get("bs_kind") == "lambda":
+                return lambda ctx, s: abs_(ctx, s)
             return abs_
 
         def bs(ctx, s):
             h.cur.trace.append(("before_sleep", place, ctx.attempt, s))
+            slow()
             h.hook_fault("before_sleep")
 
         return bs
 
     def mk_sleeper(self, place):
         h = self
-        if self.is_async and self.sc.get("sleeper_kind", "async") == "async":
+        kind = self.sc.get("sleeper_kind", "async")
+        if self.is_async and kind in ("async", "lambda", "callable"):
 
             async def asl(s):
                 await h.susp("sleeper")
                 h.sleeper_body(place, s)
 
+            if kind == "lambda":
+                # returns an awaitable without being a coroutine function
+                return lambda s: asl(s)
+            if kind == "callable":
+
+                class Sleeper:
+                    async def __call__(self, s):
+                        await asl(s)
+
+                return Sleeper()
             return asl
 
         def sl(s):
